@@ -267,7 +267,11 @@ CHECKS = {
           "anomalies, phase means and phase indices are compared with the "
           "implementation inside Coq; sequences of window changes and both "
           "settings of the `anomalies` flag are checked directly against a "
-          "brute-force selection.",
+          "brute-force selection. The window conditions of Data.set_window (when the full "
+          "range is taken, the temporal and spatial mask conditions, the "
+          "slicing) and the climatology statements of climate_data.py are "
+          "regenerated on every run; the masks are proved equal to the model's "
+          "(spatial mask under the documented either-pair-of-bounds rule).",
   "design_ref": "DESIGN.md section 5, C13",
   "note": "trusted: float32 storage of grid coordinates (generated values "
           "are exact); float means compared to 1e-9; the per-axis reading of "
